@@ -47,6 +47,49 @@ def ok_or_failing(rng, state, k, fail, ids, pool):
     return B.msg_doc('roStorySend', 10 + k, story_ref=S[-1], body=[B.E('p', 'sent %d' % k)], fields=[B.E('storySlug', 's'), 'BODY'])
 
 
+def judge_twice(s, docs, how, tmpdir):
+    """merge() called twice on one collection == folding the messages twice over
+    the same running order (every second-pass add is an add like any other)."""
+    import warnings as W
+    mc, cerr = K.make_collection(s, docs, how, True, tmpdir)
+    if mc is None:
+        return
+    e1, w1 = K.merge_collection(s, mc, False)
+    e2, w2 = K.merge_collection(s, mc, False)
+    EV.drain()
+    # reference: the hand fold, then every message again on the resulting object
+    from ..spec import classify_doc
+    from xml.etree import ElementTree as ET
+    ordered = sorted(docs, key=K.message_id_of)
+    create = [d for d in ordered if classify_doc(ET.fromstring(d)) == 'RunningOrder'][0]
+    rest = [d for d in ordered if classify_doc(ET.fromstring(d)) != 'RunningOrder']
+    ro = s.load(create)
+    fails = [0, 0]
+    foreign = False
+    with W.catch_warnings():
+        W.simplefilter('ignore')
+        for p_ in (0, 1):
+            for d in rest:
+                try:
+                    ro = ro + s.load(d)
+                except s.exc.MosMergeError:
+                    fails[p_] += 1
+                except Exception:
+                    foreign = True
+    EV.drain()
+    if foreign:
+        return
+    s.evaluations += 1
+    n2 = w2.count('MosMergeNonStrictWarning')
+    s.note_sig(('twice', how, min(len(docs), 8), min(fails[1], 5), str(mc) == str(ro)))
+    wit = {'type': 'collection', 'docs': docs, 'strict': False, 'how': how, 'twice': True}
+    if str(mc) != str(ro) or e2 is not None or n2 != fails[1]:
+        s.custom_violation('second-merge-call-differs-from-adding-the-messages-again',
+                           {'second_pass_failures_in_fold': fails[1], 'second_pass_warnings': n2,
+                            'exc': type(e2).__name__ if e2 else None, 'same_text': str(mc) == str(ro)},
+                           wit, status='twice')
+
+
 def judge_collection(s, docs, how, strict, tmpdir, label, allow_incomplete=True):
     mc, cerr = K.make_collection(s, docs, how, allow_incomplete, tmpdir)
     wit = {'type': 'collection', 'docs': docs, 'strict': strict, 'how': how, 'allow_incomplete': allow_incomplete}
@@ -136,9 +179,17 @@ def run(s):
                     kind = 'roDelete'
                 docs.append(gen.rand_message(rng, state, kind, 10 + k, ids, pool=pool,
                                              shape_weights=(0.6, 0.25, 0.12, 0.03), selfref=0.1))
+            if c % 7 == 3:
+                # the "roCreate" handed in is a running order that was already completed and written out
+                base = s.load(ro_txt)
+                base, _e, _w = s.add(base, s.load(B.msg_doc('roDelete', 2)))
+                EV.drain()
+                docs[0] = str(base)
             rng.shuffle(docs)
             for strict in (True, False):
-                judge_collection(s, docs, hows[c % 3], strict, tmpdir, 'random')
+                judge_collection(s, docs, hows[c % 3], strict, tmpdir, 'random' if c % 7 != 3 else 'completed-base')
+            if c % 5 == 1:
+                judge_twice(s, docs, hows[c % 3], tmpdir)
     finally:
         shutil.rmtree(tmpdir, ignore_errors=True)
 
